@@ -168,6 +168,17 @@ theorem returned_runq (s : S) (r : Ret) : (returned s r).k.runq = s.k.runq := by
 theorem returned_timerq (s : S) (r : Ret) : (returned s r).k.timerq = s.k.timerq := by
   unfold returned; split <;> rfl
 
+theorem bodyStep_runq (s : S) : (bodyStep s).k.runq = s.k.runq := by
+  unfold bodyStep; split
+  · exact returned_runq _ _
+  · rfl
+  · rfl
+theorem bodyStep_timerq (s : S) : (bodyStep s).k.timerq = s.k.timerq := by
+  unfold bodyStep; split
+  · exact returned_timerq _ _
+  · rfl
+  · rfl
+
 theorem qok_bodyOf {s : S} (h : QOk s.k) (c : Fid) (hc : c ∉ s.k.timerq) : QOk (bodyOf s c).k := by
   unfold bodyOf
   split
@@ -182,6 +193,7 @@ theorem qok_bodyOf {s : S} (h : QOk s.k) (c : Fid) (hc : c ∉ s.k.timerq) : QOk
       rw [e]; exact qok_fibreTimeout h c _ hc
     · exact qok_lists (qok_fibreTimeout h c _ hc) (returned_runq _ _) (returned_timerq _ _)
   · exact qok_lists h (returned_runq _ _) (returned_timerq _ _)
+  · exact qok_lists h (bodyStep_runq _) (bodyStep_timerq _)
 
 theorem qok_dispatch {s : S} (h : QOk s.k) (hc : ∀ c, s.k.current = some c → c ∉ s.k.timerq) : QOk (dispatch s).k := by
   unfold dispatch
@@ -209,6 +221,10 @@ theorem qok_afterDrain {s : S} (h : QOk s.k) (c : Cont) : QOk (afterDrain s c).k
       · exact qok_afterUpdate (s := { s with k := { s.k with priv := _ } }) (qok_lists h rfl rfl)
       · exact qok_afterUpdate h
   | pass2 c => exact qok_afterUpdate (s := { s with k := makeRunnable s.k c }) (qok_makeRunnable h c)
+  | brun g => exact qok_lists (qok_makeRunnable h g) (bodyStep_runq _) (bodyStep_timerq _)
+  | bkill g =>
+    refine qok_lists (k := { s.k with runq := s.k.runq.erase g, timerq := s.k.timerq.erase g }) ?_ (bodyStep_runq _) (bodyStep_timerq _)
+    exact ⟨h.rn.erase g, h.tn.erase g, fun f hg hgt => h.dj f (List.mem_of_mem_erase hg) (List.mem_of_mem_erase hgt)⟩
 
 theorem inv2_sched {s' : S} (hq : QOk s'.k) (hp : PostPc s'.mpc) : Inv2 s' :=
   ⟨hq, fun hf => absurd hf hp.notFast⟩
@@ -284,6 +300,7 @@ theorem reach_inv2 {s : S} (hr : Reach s) : Inv2 s := by
   | nops k _ ih => exact inv2_same ih rfl rfl
   | newItem _ ih => exact inv2_same ih rfl rfl
   | noYields _ ih => exact inv2_same ih rfl rfl
+  | setBody b r _ ih => exact inv2_same ih rfl rfl
   | observe o _ _ ih => exact inv2_same ih rfl rfl
 
 end Librfn.Isr.L
